@@ -14,7 +14,7 @@ class OrderImports(SimpleCodemod, UtilsMixin):
         name="order-imports",
         summary="Order Imports",
         review_guidance=ReviewGuidance.MERGE_WITHOUT_REVIEW,
-        description="",
+        description="This codemod sorts and formats the imports at the top of each module (standard library, third party and local imports in separate, alphabetically ordered blocks).",
     )
     change_description = "Ordered and formatted import block below this line"
 
